@@ -27,6 +27,41 @@ impl<T: Clone> Clone for G<T> { fn clone(&self) -> G<T> { CLONES.with(|c| c.set(
 '''
 
 
+# operands that are references WITH an explicit lifetime: such a type is an operand type like any other (it is not the
+# "reference form" of its pointee), so the derived forms take it by value and by (elided) reference to it
+def lifetime_modules():
+    X = lambda v: 'X("%s".to_string())' % v
+    Yv = 'Y("b".to_string())'
+    def block(tag, setup, expr, want, extra=''):
+        return ('    { %s counts(); let c = %s; let (n, k) = counts(); println!("@ID@\\t%s\\t{:?}\\t{}\\t{}", c, n, k); %s}'
+                % (setup, expr, tag, extra), (tag,) + want)
+    out = []
+    # 1. Rhs = &'a Y
+    item = ("impl<'a> ::core::ops::Sub<&'a Y> for X { type Output = X; fn sub(self, rhs: &'a Y) -> X { tick(); "
+            "X(format!(\"({}-{})\", self.0, rhs.0)) } }")
+    bl = [block('rv', 'let a = %s; let b = %s;' % (X('a'), Yv), '&a - &b', ('X("(c[a]-b)")', '1', '1')),
+          block('vr', 'let a = %s; let b = %s;' % (X('a'), Yv), 'a - &&b', ('X("(a-b)")', '1', '0')),
+          block('rr', 'let a = %s; let b = %s;' % (X('a'), Yv), '&a - &&b', ('X("(c[a]-b)")', '1', '1'))]
+    out.append(('Sub', item, bl))
+    # 2. Rhs = &'static str
+    item = ("impl ::core::ops::Add<&'static str> for X { type Output = X; fn add(self, rhs: &'static str) -> X { tick(); "
+            "X(format!(\"({}-{})\", self.0, rhs)) } }")
+    bl = [block('rv', 'let a = %s;' % X('a'), '&a + "s"', ('X("(c[a]-s)")', '1', '1')),
+          block('vr', 'let a = %s; let s: &\'static str = "s";' % X('a'), 'a + &s', ('X("(a-s)")', '1', '0')),
+          block('rr', 'let a = %s; let s: &\'static str = "s";' % X('a'), '&a + &s', ('X("(c[a]-s)")', '1', '1'))]
+    out.append(('Add', item, bl))
+    # 3. Op and OpAssign from a base with Rhs = &'a Y
+    item = ("impl<'a> ::core::ops::Mul<&'a Y> for X { type Output = X; fn mul(self, rhs: &'a Y) -> X { tick(); "
+            "X(format!(\"({}-{})\", self.0, rhs.0)) } }")
+    def ablock(tag, expr, want):
+        return ('    { let mut a = %s; let b = %s; counts(); %s; let (n, k) = counts(); println!("@ID@\\t%s\\t{:?}\\t{}\\t{}", a, n, k); }'
+                % (X('a'), Yv, expr, tag), (tag,) + want)
+    bl = [ablock('asg_v', 'a *= &b', ('X("(c[a]-b)")', '1', '1')), ablock('asg_r', 'a *= &&b', ('X("(c[a]-b)")', '1', '1')),
+          block('rr', 'let a = %s; let b = %s;' % (X('a'), Yv), '&a * &&b', ('X("(c[a]-b)")', '1', '1'))]
+    out.append(('Mul, MulAssign', item, bl))
+    return out
+
+
 class C09(Prop):
     pid = 'C09'
     tag = 'impls generated from a user impl (headers + bodies), dump, error messages'
@@ -35,7 +70,7 @@ class C09(Prop):
             'sets, dump, error paths). Oracle: EXHAUSTIVE grid 10 operators (cycled) x base form (T/&T x Rhs/&Rhs) x Rhs in '
             '{default Self, other type} x requested lists {Op}, {OpAssign}, {Op,OpAssign}, {OpAssign,Op} and base OpAssign<Rhs|&Rhs> with {Op} x '
             'non-generic / generic / generic with `Self` in an inline bound / in the where-clause; the user body is non-commutative and records calls, the operand types count clones; every '
-            'generated form is executed and compared with the property statement (result, one call, clones exactly when received '
+            'plus three hand-written bases whose Rhs is a reference with an explicit lifetime (an opaque operand type); every generated form is executed and compared with the property statement (result, one call, clones exactly when received '
             'by reference but needed by value, borrowed operands unchanged); non-trivial = every oracle case')
 
     def cases(self, tier, rng):
@@ -147,6 +182,17 @@ class C09(Prop):
             src.append('}')
             expect[r.cid] = exp
             mods.append(l2.Module(r.cid, '\n'.join(src), r))
+        class _Lit:       # a hand-written case (no model counterpart): carries what the failure record needs
+            def __init__(self, text):
+                self.text, self.meta = text, dict(features=('explicit-lifetime',))
+            def input_text(self):
+                return self.text
+        for k, (attr, item, blocks) in enumerate(lifetime_modules()):
+            cid = 10 ** 6 + k
+            src = [TYPES, '#[::derive_ex::derive_ex(%s)]\n%s' % (attr, item), 'pub fn run() {'] + \
+                  [b[0].replace('@ID@', str(cid)) for b in blocks] + ['}']
+            expect[cid] = [b[1] for b in blocks]
+            mods.append(l2.Module(cid, '\n'.join(src), _Lit('#[derive_ex(%s)] %s' % (attr, item))))
         exes = l2.compile_parallel([('c09', mods)], prelude=PRELUDE)
         obs = l2.run_exe(exes['c09'])[1] if exes['c09'] else {}
         failures, validated, samples, n_obs = [], 0, [], 0
